@@ -105,4 +105,12 @@ theorem C02_rel_answer_instances (ord : Order) (ho : OrderOK ord) (pf M j nv : N
     have hyV : y ∈ qs.flatMap fun q => (apply b.σ q).vars := List.mem_flatMap.2 ⟨q, hq, hy⟩
     exact hag y hyV (normal_vars _ (apply_apply_solved hg.1 q) y hy)
 
+section Examples
+/-- non-vacuity: `x != 1, member(x, y)` is a well-formed program over two variables -/
+example : (RProg.conj (.atom (.neq (.var 0) (Term.num 1))) (.call ⟨.member, [.var 0, .var 1], false⟩)).WF 2 := by
+  refine ⟨⟨below_var (by omega), fun y hy => by simp [Term.vars, Term.num] at hy⟩, trivial, fun t ht => ?_⟩
+  simp only [List.mem_cons, List.not_mem_nil, or_false] at ht
+  rcases ht with rfl | rfl <;> exact below_var (by omega)
+end Examples
+
 end Pv
